@@ -86,8 +86,8 @@ impl Family for C17Family {
             op.yields = gen_yields(&mut r, 4, 2);
             if faulty && r.chance(1, 3) {
                 match r.below(3) {
-                    0 => op.faults.push(Fault { seam: SeamKind::Save, nth: 0, status: r.below(256) as u8 }),
-                    1 => op.faults.push(Fault { seam: SeamKind::Find, nth: 0, status: r.below(256) as u8 }),
+                    0 => op.faults.push(Fault { seam: SeamKind::Save, nth: 0, status: r.below(256) as u8, sticky: false }),
+                    1 => op.faults.push(Fault { seam: SeamKind::Find, nth: 0, status: r.below(256) as u8, sticky: false }),
                     _ => op.cancel_after = Some(r.below(5) as u32),
                 }
             }
